@@ -7,6 +7,8 @@
   property's own constants.  All theorems hold for every non-ASCII letter-or-digit predicate `U`.
 -/
 import GIV.Lemmas.ImportsBuildProofs
+import GIV.Lemmas.ImportsBuildGoFile
+import GIV.Lemmas.ImportsBuildGoSB
 
 namespace GIV.C19
 open GIV GIV.Build
@@ -113,5 +115,72 @@ theorem star_accepts (U : Nat → Bool) (name c : Bytes) (tags : Tags) (hs : tag
 example : shouldBuild exU [47, 47, 32, 43, 98, 117, 105, 108, 100, 32, 33, 108, 105, 110, 117, 120, 10, 10] (fun t => t == star) = true := by decide
 -- bytes of: "// +build ignore\n\n"
 example : shouldBuild exU [47, 47, 32, 43, 98, 117, 105, 108, 100, 32, 105, 103, 110, 111, 114, 101, 10, 10] (fun t => t == star) = false := by decide
+
+/-! ### The same statements about the Go source itself
+
+`GIV.Go.Build.{matchTag, matchTags, ShouldBuild, MatchFile}` are the Lean translation of
+imports/build.go, regenerated from /repo's working tree on every check run
+(harness/internal/go2lean → GIV/Gen/ImportsBuildGo.lean; `none` = Go run-time panic or exhausted
+loop / recursion budget).  `unicode.IsLetter` / `unicode.IsDigit` are parameters of the
+translation; what is assumed of them is `UnicodeOK` (ASCII tables exact, U+FFFD neither). -/
+
+open GIV.Go.Build in
+/-- The translated functions are total (no panic: every index and slice of build.go is in range,
+the loop and recursion budgets suffice) and equal the model, for all inputs. -/
+theorem go_build_agrees (isLetter isDigit : Int → Bool) (hU : UnicodeOK isLetter isDigit)
+    (s : Bytes) (tags : Tags) (want : Bool) :
+    GIV.Go.Build.matchTag isLetter isDigit s tags want = some (matchTag (UOf isLetter isDigit) s tags want) ∧
+    GIV.Go.Build.matchTags isLetter isDigit s tags = some (matchTags (UOf isLetter isDigit) s tags) ∧
+    GIV.Go.Build.ShouldBuild isLetter isDigit s tags = some (shouldBuild (UOf isLetter isDigit) s tags) ∧
+    GIV.Go.Build.MatchFile isLetter isDigit s tags = some (matchFile (UOf isLetter isDigit) s tags) :=
+  ⟨go_matchTag_eq isLetter isDigit hU s tags want, go_matchTags_eq isLetter isDigit hU s tags,
+   go_ShouldBuild_eq isLetter isDigit hU s tags, go_MatchFile_eq isLetter isDigit hU s tags⟩
+
+open GIV.Go.Build in
+/-- `matchTags` of the source: the AND over the comma-separated terms of the specification. -/
+theorem go_matchTags_spec (isLetter isDigit : Int → Bool) (hU : UnicodeOK isLetter isDigit)
+    (name : Bytes) (tags : Tags) :
+    GIV.Go.Build.matchTags isLetter isDigit name tags
+      = some ((parseOption (UOf isLetter isDigit) name).all (evalTerm tags)) := by
+  rw [go_matchTags_eq isLetter isDigit hU, matchTags_eq]
+
+open GIV.Go.Build in
+/-- `ShouldBuild` of the source never panics and is true exactly when every `// +build` line of the
+leading block has a satisfied option. -/
+theorem go_ShouldBuild_spec (isLetter isDigit : Int → Bool) (hU : UnicodeOK isLetter isDigit)
+    (c : Bytes) (tags : Tags) :
+    GIV.Go.Build.ShouldBuild isLetter isDigit c tags = some
+      ((leadingBlock (linesOf c)).all (fun l =>
+        match plusBuildArgs l with
+        | some args => evalLine tags (parseLine (UOf isLetter isDigit) args)
+        | none => true)) := by
+  rw [go_ShouldBuild_eq isLetter isDigit hU, shouldBuild_eq_spec]; rfl
+
+open GIV.Go.Build in
+/-- `MatchFile` of the source never panics and is false exactly for an unselected known suffix. -/
+theorem go_MatchFile_spec (isLetter isDigit : Int → Bool) (hU : UnicodeOK isLetter isDigit)
+    (name : Bytes) (tags : Tags) :
+    (∃ b, GIV.Go.Build.MatchFile isLetter isDigit name tags = some b ∧
+      (b = false ↔ tags star = false ∧ ∃ rl, fileSegsRev name = some rl ∧ suffixUnselected tags rl)) :=
+  ⟨_, go_MatchFile_eq isLetter isDigit hU name tags, matchFile_false_iff _ name tags⟩
+
+/-- ASCII-only instance of the Unicode tables, for the closed examples below. -/
+def exIsLetter (c : Int) : Bool := (decide (65 ≤ c) && decide (c ≤ 90)) || (decide (97 ≤ c) && decide (c ≤ 122))
+def exIsDigit (c : Int) : Bool := decide (48 ≤ c) && decide (c ≤ 57)
+
+theorem exUnicodeOK : GIV.Go.Build.UnicodeOK exIsLetter exIsDigit := by
+  constructor
+  · intro b hb
+    have key : ∀ n : Nat, n < 128 →
+        GIV.Go.Build.okRune exIsLetter exIsDigit (n : Int) = asciiTagByte (UInt8.ofNat n) := by decide +kernel
+    have := key b.toNat (by simpa using UInt8.lt_iff_toNat_lt.mp hb)
+    simpa using this
+  · decide
+
+-- the generated definitions, evaluated by the kernel: "linux,!windows" under {android, amd64};
+-- "x_windows_amd64_test.go"; "// +build windows\n\npackage p\n"
+example : GIV.Go.Build.matchTags exIsLetter exIsDigit [108,105,110,117,120, 44, 33, 119,105,110,100,111,119,115] exTags = some true := by decide
+example : GIV.Go.Build.MatchFile exIsLetter exIsDigit [120, 95, 119, 105, 110, 100, 111, 119, 115, 95, 97, 109, 100, 54, 52, 95, 116, 101, 115, 116, 46, 103, 111] exTags = some false := by decide +kernel
+example : GIV.Go.Build.ShouldBuild exIsLetter exIsDigit [47, 47, 32, 43, 98, 117, 105, 108, 100, 32, 119, 105, 110, 100, 111, 119, 115, 10, 10, 112, 97, 99, 107, 97, 103, 101, 32, 112, 10] exTags = some false := by decide
 
 end GIV.C19
